@@ -273,3 +273,17 @@ Example C14_example_reader_blocks :
   len (Reply.c_rq (fst (Reply.reader_send (fst (Reply.writer_rereq c1))))) = 3 /\
   Reply.c_hand (fst (Reply.reader_send (fst (Reply.writer_rereq c1)))) = None.
 Proof. vm_compute. repeat split; reflexivity. Qed.
+
+(* staggered idle periods (seeded bug C14-15): id 0x0801 stalls at 0 s, id 0x0200 at 2 s.  The read at
+   5.001 s re-requests only 0x0801 and refreshes only ITS stamp; the read at 7.001 s re-requests
+   0x0200 (stale since 2 s: its clock was not reset by the other id's re-request) and not 0x0801
+   (re-requested 2 s ago); by C14_exact_list this is general: last_stamp X depends only on X's own
+   packets and X's own re-requests *)
+Example C14_example_staggered :
+  let evs := [(0, EvMsg (ex_pkt 2049 3 1 10 [1])); (0, EvEnd);
+              (2000, EvMsg (ex_pkt 512 2 1 20 [7])); (2000, EvEnd);
+              (5001, EvEnd); (7001, EvEnd); (10002, EvEnd)] in
+  map (fun kr => (fst kr, rr_list (snd kr))) (rereqs 2049 (snd (run [] evs))) = [(4%nat, [2; 3]); (6%nat, [2; 3])] /\
+  map (fun kr => (fst kr, rr_list (snd kr))) (rereqs 512 (snd (run [] evs))) = [(5%nat, [2])] /\
+  map (fun kv => (fst kv, x_update (snd kv))) (fst (run [] (firstn 5 evs))) = [(512, 2000); (2049, 5001)].
+Proof. vm_compute. repeat split; reflexivity. Qed.
